@@ -270,11 +270,11 @@ _B = lambda *ks: [F + "bodies_" + k + "_eq" for k in ks] + [F + "sourceFilesOuts
 BODY_FACTS = {
     "C01": _B("v5_patch"),
     "C02": _B("v5_merge", "v5_patch"),
-    "C03": _B("v5_merge"),
+    "C03": _B("v5_merge", "v5_patch"),   # merge.go works on the node types of patch.go (lazyNode, partialDoc and their marshalling)
     "C04": _B("v5_patch", "v5_merge", "codec_decode", "legacy_patch", "legacy_merge"),
     "C05": _B("v5_patch", "v5_merge", "codec_decode", "codec_encode"),
     "C06": _B("v5_patch"),
-    "C07": _B("v5_merge"),
+    "C07": _B("v5_merge", "v5_patch"),
     "C08": _B("v5_patch"),
     "C09": _B("v5_patch", "v5_merge", "codec_decode", "codec_encode", "codec_scanner"),
     "C10": _B("v5_patch", "v5_merge", "codec_decode", "codec_encode", "codec_scanner", "codec_indent"),
